@@ -23,6 +23,12 @@ FRAMEID = "quil_rs::instruction::frame::FrameIdentifier"
 TC = "quil_rs::program::type_check"
 
 
+def _mentions_im(e):
+    hit = []
+    walk_expr(e, lambda n: hit.append(1) if n[0] == "field" and n[2] == "im" else None)
+    return bool(hit)
+
+
 def run(ctx):
     res = Result("C30")
     db = ctx.db("quil_rs")
@@ -114,6 +120,59 @@ def run(ctx):
         res.site(key, True, {"variant": v, "calls": sorted(x for x in names if x), "verdict": "ok" if ok else "VIOLATION"})
         if not ok:
             res.find(key, sbr.loc(), "should_be_real does not %s for Expression::%s" % ("report an error" if v == "Variable" else "look the region up in the declarations", v), "`SET-SCALE 0 \"xy\" %x` type-checks" if v == "Variable" else "an undeclared or INTEGER region is accepted as real")
+    # Number: a literal is real iff its imaginary part vanishes, whatever its sign: the test is on |im| (or im != 0) and the
+    # error is reported on the non-zero side
+    key = "K7|number-leaf-sign-symmetric"
+    arm = next((a for a in m["arms"] if "Number" in k2.arm_variants(a, EXPRESSION)[0]), None)
+    tests = []
+    for bi, b in enumerate(sbr.blocks):
+        t = b["t"]
+        if t["k"] != "switch":
+            continue
+        d = fn_expr_operand(sbr, t["d"])
+        mentions = []
+        walk_expr(d, lambda n: mentions.append(n) if n[0] == "field" and n[2] in ("im", "re") and n[1][0] == "field" and n[1][1][0] == "as" and n[1][1][2] == "Number" else None)
+        if mentions:
+            tests.append((bi, t, d, mentions))
+    ok = False
+    detail = {"tests_on_the_literal": len(tests)}
+    if arm is not None and len(tests) == 1:
+        bi, t, d, mentions = tests[0]
+        only_im = all(n[2] == "im" for n in mentions)
+        shape = None
+        if d[0] == "bin" and d[1] in ("Gt", "Ge", "Lt", "Le", "Eq", "Ne"):
+            sides = [d[2], d[3]]
+            imside = [x for x in sides if _mentions_im(x)]
+            other = [x for x in sides if not _mentions_im(x)]
+            if len(imside) == 1 and len(other) == 1 and other[0][0] == "const":
+                x = imside[0]
+                under_abs = x[0] == "call" and x[1].endswith("::abs") and x[2][0][0] == "field" and x[2][0][2] == "im"
+                bare = x[0] == "field" and x[2] == "im"
+                try:
+                    cval = float(other[0][1])
+                except (TypeError, ValueError):
+                    cval = None
+                im_left = sides[0] is x
+                if under_abs and cval is not None and 0.0 <= cval < 1e-9 and d[1] in ("Gt", "Ge", "Lt", "Le"):
+                    # which side of the switch is "non-zero"?
+                    nonzero_when_true = (d[1] in ("Gt", "Ge")) == im_left
+                    shape = ("abs", nonzero_when_true)
+                elif bare and cval == 0.0 and d[1] in ("Eq", "Ne"):
+                    shape = ("cmp0", d[1] == "Ne")
+        err_side_ok = False
+        if shape:
+            false_targets = [target for v, target in t["ts"] if int(v) == 0]
+            errs = [bb for bb, tt, cc in sbr.calls() if cc and cc.get("name") == "real_value_required" and in_span(tt["sp"], arm["body_sp"])]
+            if len(errs) == 1:
+                deps = [x for x in sbr.control_deps(errs[0], transitive=False) if x[0] == bi]
+                if len(deps) == 1:
+                    on_true = deps[0][1] not in false_targets
+                    err_side_ok = on_true == shape[1]
+        ok = only_im and shape is not None and err_side_ok
+        detail.update({"only_imaginary_part_tested": only_im, "shape": shape[0] if shape else None, "error_on_nonzero_side": err_side_ok})
+    res.site(key, True, dict(detail, verdict="ok" if ok else "VIOLATION"))
+    if not ok:
+        res.find(key, sbr.loc(arm["sp"]) if arm else sbr.loc(), "should_be_real does not reject a number literal exactly when |imaginary part| is non-zero (%s)" % detail, "`SET-PHASE 0 \"xy\" x * (1-2i)` with the literal built through the API (imaginary part -2) type-checks")
     # ---- R3 SET/SHIFT variants
     mt = k2.match_on(db, tc, INSTRUCTION)
     m2 = max(mt, key=lambda x: len(x["arms"])) if mt else None
